@@ -18,7 +18,7 @@ sc3.LIB_PORT = 57400 + os.getpid() % 400
 sc3.LIB_PORT_RANGE = 8
 sc3.init('rt')
 from sc3.base.main import main
-from sc3.base.clock import SystemClock, TempoClock
+from sc3.base.clock import SystemClock, TempoClock, AppClock
 from sc3.base.functions import Function
 from sc3.base.stream import Routine
 
@@ -74,12 +74,55 @@ def run_batch(b):
     return {'log': list(log), 'complete': len(log) >= expect}
 
 
+def run_app(b):
+    """AppClock (the non-recursive Scheduler: everything that expired in one tick is popped first, then woken):
+    a batch of sched(delta, f) calls made while the scheduler lock is held -- from outside, or from inside a task
+    running in the AppClock thread -- so that SEVERAL tasks are due at one tick.  AppClock stamps with physical
+    time, so the due times are read back from the queue (under the same lock) and returned."""
+    log, cells, sched_info = [], {}, []
+
+    def make(label):
+        cell = {'label': label}
+        def f():
+            log.append(cell['label'])
+        return f, cell
+
+    def batch():
+        wraps = {}
+        for label, kind, obj, k in b['items']:
+            if kind == 'wrap':                       # the same Function object again: replaces its pending wake-up
+                if obj not in wraps:
+                    f, cell = make(label)
+                    wraps[obj] = (Function(f), cell)
+                    cells[f] = cell
+                w, cell = wraps[obj]
+                cell['label'] = label
+                AppClock.sched(k / 16, w)
+            else:                                    # a plain python function: a fresh wrapper, a new item
+                f, cell = make(label)
+                cells[f] = cell
+                AppClock.sched(k / 16, f)
+        for t, item in list(AppClock._scheduler.queue):
+            if item.func in cells:
+                sched_info.append([cells[item.func]['label'], repr(float(t))])
+    if b.get('inside'):
+        AppClock.sched(0, lambda: batch())           # runs in the AppClock thread, inside a tick
+    else:
+        with main._main_lock:                        # AppClock._sched_lock: no tick before the batch is complete
+            batch()
+    deadline = time.time() + 12
+    while len(log) < b['expect'] and time.time() < deadline:
+        time.sleep(0.02)
+    time.sleep(0.15)
+    return {'log': list(log), 'complete': len(log) >= b['expect'], 'queued': sched_info}
+
+
 def main_():
     spec = json.load(open(sys.argv[1]))
     out = []
     for b in spec['batches']:
         try:
-            out.append(run_batch(b))
+            out.append(run_app(b) if b['clock'] == 'app' else run_batch(b))
         except BaseException as e:
             out.append({'error': '%s: %s' % (type(e).__name__, e)})
     json.dump({'out': out}, open(sys.argv[2], 'w'))
